@@ -20,7 +20,7 @@ func registerC04() {
 		Rule: "family bursts: base files = small model files of all 17 types (12- and 14-byte headers, header CRC zero and non-zero), Encode outputs in both byte orders and " +
 			"the device files of at most 256 bytes, each verified to pass CheckIntegrity; for every bit position p (serial order of the checksum: 8*byte+bit, bit 0 = LSB) and " +
 			"XOR patterns of span <= 16 bits starting at p that stay clear of byte 0 and bytes 4-7: quick = all 1- and 2-bit patterns at every position plus all 2^15 patterns at " +
-			"every 29th position, thorough = all 2^15 patterns at every position; Decode and CheckIntegrity must both return an error. Family headers: header sizes x protocol " +
+			"every 29th position, thorough = all 2^15 patterns at every position; Decode (every fifth time with the unknown-item options and a logger) and CheckIntegrity must both return an error. Family headers: header sizes x protocol " +
 			"versions x profile versions x stored CRC {correct, 0, each single-bit error, PRNG} and every single-byte corruption of bytes 1-3, 8-13 of a correct 14-byte header, " +
 			"each inside an otherwise valid file with recomputed file CRC: CheckIntegrity(headerOnly), DecodeHeader, Decode and Header.CheckIntegrity must all agree with the " +
 			"reference verdict. Family large-bursts: model streams of 5-120 KB and the device files up to 400 KB, each corrupted at 400 (quick) / 3000 (thorough) PRNG bit positions (concentrated around the decoder's 4096-byte buffer boundaries, record boundaries and the trailing CRC) with PRNG burst patterns of span <= 16. Family accepted: streams Decode accepts (model, device, Encode output, and model streams padded to data sizes at and around multiples of the 4096-byte read buffer) must pass CheckIntegrity. A case is one corrupted file; distinct by construction",
@@ -112,9 +112,18 @@ func c04BaseFiles() ([][]byte, []string) {
 	return c04Base, c04BaseName
 }
 
+var detectRot uint32
+
+// detect runs Decode and CheckIntegrity on b; every fifth call Decode runs with the unknown-item
+// options and a logger instead (options must not turn a detected corruption into success).
 func detect(b []byte) (decodeErr, integrityErr error, panicked string) {
+	detectRot++
 	o := lib.Guard(func() {
-		_, decodeErr = fit.Decode(bytes.NewReader(b))
+		if detectRot%5 == 0 {
+			_, decodeErr = fit.Decode(bytes.NewReader(b), fit.WithUnknownFields(), fit.WithUnknownMessages(), fit.WithLogger(&countingLogger{}))
+		} else {
+			_, decodeErr = fit.Decode(bytes.NewReader(b))
+		}
 		integrityErr = fit.CheckIntegrity(bytes.NewReader(b), false)
 	})
 	if o.Panicked || o.Hang {
